@@ -39,7 +39,7 @@ def strat_aead(draw, tier):
         aad = [draw(gen.data_of(st.one_of(st.integers(0, 3 * bs + 1), st.sampled_from([0, bs - 1, bs, bs + 1, 127, 128, 129, 300]))))]
     return {"spec": spec, "pt": pt, "aad": aad, "mut": draw(st.sampled_from(MUTS)), "pos": draw(st.integers(0, 1 << 20)),
             "k": draw(st.integers(1, 16)), "extra": draw(st.binary(min_size=4, max_size=4)),
-            "path": draw(st.sampled_from(["dav", "dav", "split", "hex", "HEX"]))}
+            "path": draw(st.sampled_from(["dav", "dav", "split", "hex", "HEX", "inplace", "dav-inplace"]))}
 
 
 def flip(b, pos):
@@ -175,8 +175,38 @@ def lib_open(spec, aad, ct, tag, path, label):
         return "ctor-exc", dec
     for a in aad:
         dec.update(a)
-    if path == "dav" or spec["mode"] == "SIV":
+    import inspect
+
+    def takes_output(m):
+        try:
+            return "output" in inspect.signature(m).parameters
+        except (TypeError, ValueError):
+            return False
+    if path == "dav-inplace" and not takes_output(dec.decrypt_and_verify):
+        path = "dav"
+    if path == "inplace" and not takes_output(dec.decrypt):
+        path = "split"
+    if path == "dav-inplace" and spec["mode"] not in ("SIV", "OCB") and len(ct) > 0:
+        # documented: output= may be the buffer that holds the ciphertext
+        buf = bytearray(ct)
+        k, r = libcall(dec.decrypt_and_verify, buf, tag, allowed=(ValueError,), bucket="aead/%s/decrypt_and_verify" % label, output=buf)
+        return (k, bytes(buf)) if k == "ok" else (k, r)
+    if path in ("dav", "dav-inplace") or spec["mode"] == "SIV":
         return libcall(dec.decrypt_and_verify, ct, tag, allowed=(ValueError,), bucket="aead/%s/decrypt_and_verify" % label)
+    if path == "inplace" and spec["mode"] != "OCB" and len(ct) > 0:
+        # in-place decryption in two pieces, then verify()
+        buf = bytearray(ct)
+        mv = memoryview(buf)
+        cut = len(buf) // 2
+        if spec["mode"] == "CCM" and "msg_len" not in spec:
+            cut = 0         # without a declared length CCM takes the whole message in one call (documented)
+        for a_, b_ in ((0, cut), (cut, len(buf))):
+            if b_ > a_:
+                k, r = libcall(dec.decrypt, mv[a_:b_], allowed=(ValueError,), bucket="aead/%s/decrypt" % label, output=mv[a_:b_])
+                if k == "exc":
+                    return k, r
+        k, r = libcall(dec.verify, tag, allowed=(ValueError,), bucket="aead/%s/verify" % label)
+        return (k, bytes(buf)) if k == "ok" else (k, r)
     if len(ct) == 0 and spec["mode"] in ("GCM", "EAX", "CCM", "ChaCha20_Poly1305") and (len(tag) + sum(len(a) for a in aad)) % 2:
         # MAC-only use of the object (documented: update() ... verify()): no decrypt() call at all for the empty message
         pt = b""
